@@ -85,4 +85,19 @@ os.rename(file_name + '.new', file_name)
 if os.path.lexists(file_name + '.old'):
     os.remove(file_name + '.old')
 ''', benign=True, note='the .old protocol with existence guards is also crash safe'),
+    Mut('c18-new-file-opened-without-truncation', 'torchtree/core/parameter_utils.py', '', "        with open(file_name + '.new', 'w') as fp:\n            json.dump(parameters, fp, cls=ParameterEncoder, indent=2)\n        os.replace(file_name + '.new', file_name)",
+        "        fd = os.open(file_name + '.new', os.O_WRONLY | os.O_CREAT, 0o600)\n        with os.fdopen(fd, 'w') as fp:\n            json.dump(parameters, fp, cls=ParameterEncoder, indent=2)\n        os.replace(file_name + '.new', file_name)",
+        expect=[('C18.I2', 'safely=True')], mode='text'),
+    Mut('c18-benign-new-file-opened-with-truncation', 'torchtree/core/parameter_utils.py', '', "        with open(file_name + '.new', 'w') as fp:\n            json.dump(parameters, fp, cls=ParameterEncoder, indent=2)\n        os.replace(file_name + '.new', file_name)",
+        "        fd = os.open(file_name + '.new', os.O_WRONLY | os.O_CREAT | os.O_TRUNC, 0o600)\n        with os.fdopen(fd, 'w') as fp:\n            json.dump(parameters, fp, cls=ParameterEncoder, indent=2)\n        os.replace(file_name + '.new', file_name)",
+        benign=True, mode='text'),
+    Mut('c18-replace-in-finally', 'torchtree/core/parameter_utils.py', '', "        with open(file_name + '.new', 'w') as fp:\n            json.dump(parameters, fp, cls=ParameterEncoder, indent=2)\n        os.replace(file_name + '.new', file_name)",
+        "        try:\n            with open(file_name + '.new', 'w') as fp:\n                json.dump(parameters, fp, cls=ParameterEncoder, indent=2)\n        finally:\n            os.replace(file_name + '.new', file_name)",
+        expect=[('C18.I2', 'safely=True')], mode='text'),
+    Mut('c18-benign-cleanup-in-finally', 'torchtree/core/parameter_utils.py', '', "        with open(file_name + '.new', 'w') as fp:\n            json.dump(parameters, fp, cls=ParameterEncoder, indent=2)\n        os.replace(file_name + '.new', file_name)",
+        "        done = False\n        try:\n            with open(file_name + '.new', 'w') as fp:\n                json.dump(parameters, fp, cls=ParameterEncoder, indent=2)\n            os.replace(file_name + '.new', file_name)\n            done = True\n        finally:\n            pass",
+        benign=True, mode='text'),
+    Mut('c18-resume-promotes-new-file', 'torchtree/torchtree.py', '', "            with open(checkpoint_file) as file_pointer:", "            if os.path.isfile(checkpoint_file + '.new'):\n                os.replace(checkpoint_file + '.new', checkpoint_file)\n            with open(checkpoint_file) as file_pointer:",
+        expect=[('C18.R', 'main::resuming-only-reads-the-checkpoint-files')], mode='text',
+        more=[dict(scope='', old="import sys\n", new="import sys\nimport os\n", mode='text')]),
 ]
